@@ -25,12 +25,17 @@ open Influx.WindowAgg
 inductive W where
   | all
   | every (every offset : Int)
+  /-- explicit boundaries (calendar windows): for every raw timestamp the stop of its window,
+      computed by the harness with the real flux `interval` package and sent along as trusted
+      input; timestamps not listed (none is ever asked for) get a window of their own -/
+  | table (stops : List (Int × Int))
 deriving Repr, DecidableEq
 
 /-- stop of the window containing `t` (`math.MaxInt64` for the whole range). -/
 def W.stopOf : W → Int → Int
   | .all, _ => 9223372036854775807
   | .every e o, t => o + ((t - o) / e + 1) * e
+  | .table tbl, t => match tbl.lookup t with | some s => s | none => t + 1
 
 /-- the window a ReadWindowAggregate request (WindowEvery = every, Offset = offset) asks for:
     `every = MaxInt64` means "the whole range"; only `every > 0` is a valid request. -/
